@@ -83,7 +83,53 @@ def _split_props(pattern: str) -> tuple[str, dict[str, str]]:
     return PROP_RE.sub(sub, pattern), table
 
 
+def split_alternatives(pattern: str) -> tuple[list[str], bool] | None:
+    """`(?:a|b|c)` or `(?:a|b|c)*` -> (['a','b','c'], repeated); None if the pattern is not of that shape.
+    (the stdlib parser factors common prefixes out of a branch, so the alternatives are split textually)"""
+    repeated = False
+    body = pattern
+    if body.startswith("(?:") and body.endswith(")*"):
+        body, repeated = body[3:-2], True
+    elif body.startswith("(?:") and body.endswith(")"):
+        body = body[3:-1]
+    else:
+        return None
+    alts, cur, depth, in_class, i = [], "", 0, False, 0
+    while i < len(body):
+        ch = body[i]
+        if ch == "\\" and i + 1 < len(body):
+            cur += body[i : i + 2]
+            i += 2
+            continue
+        if in_class:
+            if ch == "]":
+                in_class = False
+        elif ch == "[":
+            in_class = True
+        elif ch == "(":
+            depth += 1
+        elif ch == ")":
+            depth -= 1
+            if depth < 0:
+                return None
+        elif ch == "|" and depth == 0:
+            alts.append(cur)
+            cur = ""
+            i += 1
+            continue
+        cur += ch
+        i += 1
+    if depth != 0 or in_class:
+        return None
+    alts.append(cur)
+    return alts, repeated
+
+
 def parse(pattern: str, ignore_case: bool = False) -> Parsed:  # noqa: C901, PLR0912
+    sp_alts = split_alternatives(pattern)
+    if sp_alts is not None and len(sp_alts[0]) > 1:
+        parts = [parse(a, ignore_case) for a in sp_alts[0]]
+        return Parsed("alt", parts=parts, repeat=sp_alts[1], ignore_case=ignore_case)
     text, props = _split_props(pattern)
     try:
         tree = sp.parse(text, re.I if ignore_case else 0)
